@@ -110,6 +110,7 @@ def build_graph(tlc_out, module, graph_path):
     init = set()
     edges = set()
     nlines = 0
+    params = None
 
     def sid(fs, ab):
         k = json.dumps(fs, sort_keys=True)
@@ -127,7 +128,13 @@ def build_graph(tlc_out, module, graph_path):
                 continue
             nlines += 1
             rec = json.loads(json.loads(line))
-            if "fs" in rec:
+            if "params" in rec and "act" not in rec:
+                params = rec["params"]
+                continue
+            if "fhid" in rec:   # compact form: full state = projection + hidden part
+                f = sid(dict(rec["fabs"], **rec["fhid"]), rec["fabs"])
+                t = sid(dict(rec["tabs"], **rec["thid"]), rec["tabs"])
+            elif "fs" in rec:
                 f = sid(rec["fs"], rec["fabs"])
                 t = sid(rec["ts"], rec["tabs"])
             else:
@@ -138,7 +145,7 @@ def build_graph(tlc_out, module, graph_path):
             edges.add((f, t, json.dumps(rec["act"], sort_keys=True)))
     if not edges:
         raise CannotDecide(f"TLC dumped no transitions for {module}")
-    g = dict(module=module, states=full, abs=absl, init=sorted(init),
+    g = dict(module=module, params=params, states=full, abs=absl, init=sorted(init),
              edges=[dict(f=f, t=t, a=json.loads(a)) for (f, t, a) in sorted(edges)])
     with open(graph_path, "w") as fh:
         json.dump(g, fh)
